@@ -62,13 +62,17 @@ TRUSTED_BASE = [
     "default 1; for undirected Graphs the orientation of every stored edge by its role as _as_bipartite does it); the encoder hands over each attribute as the code's == tests "
     "read it and interns label strings / str(node) to ranks among the species names",
 ]
-ASSUMPTIONS = ["species labels do not start with '__ext__' / '__target__' (place names of the extended net would collide)",
+ASSUMPTIONS = ["PetriNet.add_transition: a transition introduces at most ONE place that is not yet known (the order in which several new places enter "
+               "_place_index is the iteration order of a Python set of strings - not modelled; the model uses pre ++ post order; gen_petri never generates such "
+               "a transition and coq_case would put it outside the model domain)",
+               "species labels do not start with '__ext__' / '__target__' (place names of the extended net would collide)",
                "stoichiometric coefficients are positive integers",
                "max_states, max_depth are non-negative integers"]
 TESTED_NOT_PROVED = ["siphon_persistence_condition: the floating-point P-semiflow basis (scipy) is not modelled — the supports of its columns are oracle inputs of "
                      "model/C20_Persist.v, computed by the harness from the basis the implementation computes with the code's threshold 1e-8; the set logic on top "
                      "of them is modelled and proved (C20_persistence_condition) and compared on every net case for max_siphon_size None / k",
-                     "find_siphons/find_traps on caller-supplied networkx graphs (modes bip/und) — compared per run, theorem is about CRNHyperGraph input",
+                     "PetriNet.fire / enabled leave the marking they are given untouched (adapter flag in every petri query; not a theorem: the model's functions are pure)",
+                     "find_siphons / find_traps on caller-supplied networkx graphs with a species on both sides of a reaction given as an UNDIRECTED graph (outside the input format; such cases stay outside the model domain)",
                      ]
 
 DEFAULT_MAX_STATES = 100000
